@@ -90,6 +90,10 @@ def fieldWordOpd (f w : Str) : Opd :=
 def fieldPhraseOpd (f body : Str) : Opd :=
   ⟨f ++ ':' :: '"' :: (body ++ ['"']), .leaf (.literal (some f) body .double 0 false), 1⟩
 
+/-- `NOT x` (`k + 1` blanks after the keyword) as an operand -/
+def notOpd (k : Nat) (o : Opd) : Opd :=
+  ⟨'N' :: 'O' :: 'T' :: ' ' :: (spaces k ++ o.text), o.leaf.unary .mustNot, o.cost + 1⟩
+
 /-- a parenthesised operand list as an operand -/
 def groupOpd (lead : Nat) (occ : Option Occur) (o : Opd) (more : List PItem) (k : Nat) : Opd :=
   ⟨'(' :: printList lead occ o more k [')'], listTree occ o more, o.cost + needRest more + 3⟩
